@@ -38,6 +38,8 @@ pub struct StreamState {
 	pub thread: u64,
 	/// registration number: stamped when a new decoder thread is first seen under this id
 	pub reg: u64,
+	/// loop iterations made after the case that owned the stream was over
+	pub zombie_loops: u64,
 }
 
 static CALLBACK_ACTIVE: AtomicBool = AtomicBool::new(false);
@@ -95,12 +97,27 @@ pub fn install() {
 			"clock_load_ticks" | "clock_load_fraction" | "clock_store_ticks" | "clock_store_fraction" => super::clocksched::on_hook(site),
 			"res_reserve" | "res_drain" | "res_push" | "res_remove" | "res_refill" => super::ressched::on_hook(site, id),
 			"decode_loop" => {
-				TOTAL_LOOPS.fetch_add(1, Ordering::Relaxed);
-				if with_reg(|r| entry(r, id).abandoned) {
-					loop {
-						std::thread::park();
+				// a thread whose case is over runs on freely so that it can notice that its sound is
+				// stopped or gone and end; one that is still looping a few thousand iterations later is
+				// a leak of kira's (a known finding) and is parked for good so that it costs no CPU
+				let zombie = with_reg(|r| {
+					let st = entry(r, id);
+					if st.abandoned {
+						st.zombie_loops += 1;
+						Some(st.zombie_loops)
+					} else {
+						None
 					}
+				});
+				if let Some(n) = zombie {
+					if n > 3000 {
+						loop {
+							std::thread::park();
+						}
+					}
+					return;
 				}
+				TOTAL_LOOPS.fetch_add(1, Ordering::Relaxed);
 				loop {
 					let blocked_by_budget = with_reg(|r| {
 						let st = entry(r, id);
@@ -120,9 +137,8 @@ pub fn install() {
 						break;
 					}
 					if with_reg(|r| entry(r, id).abandoned) {
-						loop {
-							std::thread::park();
-						}
+						// the case ended while this thread was held back: let it go (see above)
+						return;
 					}
 					std::thread::sleep(Duration::from_micros(50));
 				}
@@ -135,6 +151,9 @@ pub fn install() {
 				});
 			}
 			"decode_pushed" => with_reg(|r| {
+				if entry(r, id).abandoned {
+					return;
+				}
 				TOTAL_PUSHED.fetch_add(1, Ordering::Relaxed);
 				if CAPTURE.load(Ordering::SeqCst) {
 					let mut g = PUSH_LOG.lock().unwrap_or_else(|e| e.into_inner());
